@@ -1,3 +1,163 @@
-From HbsLms Require Import Base.Bytes Model.Counter.
-Theorem placeholder_C12 : sumN [] = 0%N.
-Proof. reflexivity. Qed.
+(* C12 -- the Winternitz digit encoding is RFC-exact and domination-free.
+   Only statements; proofs in Proofs/WinternitzProofs.v and Proofs/WinternitzDom.v.
+   [K_src] is the table the translator reads from /repo's current source. *)
+From HbsLms Require Import Base.Bytes Model.Consts Model.Winternitz Model.Counter Spec.Rfc8554Ots.
+From HbsLms Require Import Proofs.WinternitzProofs Proofs.WinternitzDom Gen.Generated.
+
+Local Open Scope N_scope.
+
+Definition hash_sizes : list nat := [16%nat; 24%nat; 32%nat].
+
+(* a parameter row obeys RFC 8554 Appendix B *)
+Definition row_rfc (n : nat) (prm : otsp) : Prop :=
+  wok (o_w prm)
+  /\ N.of_nat (o_p prm) = rfc_p (N.of_nat n) (o_w prm)
+  /\ o_ls prm = rfc_ls (N.of_nat n) (o_w prm).
+
+Definition row_rfc_b (n : nat) (prm : otsp) : bool :=
+  wok_b (o_w prm)
+  && (N.of_nat (o_p prm) =? rfc_p (N.of_nat n) (o_w prm))
+  && (o_ls prm =? rfc_ls (N.of_nat n) (o_w prm)).
+
+(* KNOWN FINDING (known_findings.json, C12 lmots-ls-...): exactly these rows of the current
+   source use a checksum shift that differs from Appendix B: (n, w, ls used) *)
+Definition known_dev (n : nat) (prm : otsp) : Prop :=
+  In (n, o_w prm, o_ls prm) [(16%nat, 1, 7); (16%nat, 2, 6); (24%nat, 1, 7)].
+
+Definition known_dev_b (n : nat) (prm : otsp) : bool :=
+  existsb (fun t => match t with (n', w', ls') =>
+             Nat.eqb n n' && (o_w prm =? w') && (o_ls prm =? ls') end)
+          [(16%nat, 1, 7); (16%nat, 2, 6); (24%nat, 1, 7)].
+
+Definition table_check : bool :=
+  forallb (fun n =>
+    forallb (fun code =>
+      match ots_of_type K_src n code with
+      | None => true
+      | Some prm => (row_rfc_b n prm && dom_ok n prm) || (known_dev_b n prm && dominated_b n prm)
+      end) (map fst (c_ots_get_from_type K_src))) hash_sizes.
+
+(* obligation on the current source, decided by computation over the finite table *)
+Lemma table_check_ok : table_check = true.
+Proof. vm_compute. reflexivity. Qed.
+
+Lemma table_row n code prm :
+  In n hash_sizes -> ots_of_type K_src n code = Some prm ->
+  (row_rfc_b n prm && dom_ok n prm) || (known_dev_b n prm && dominated_b n prm) = true.
+Proof.
+  intros Hn E. pose proof table_check_ok as T. unfold table_check in T.
+  rewrite forallb_forall in T. specialize (T n Hn). rewrite forallb_forall in T.
+  assert (Hc : In code (map fst (c_ots_get_from_type K_src))).
+  { unfold ots_of_type in E. destruct (assoc code (c_ots_get_from_type K_src)) as [v|] eqn:A; [|discriminate].
+    apply assoc_In in A. apply in_map_iff. exists (code, v). split; [reflexivity|assumption]. }
+  specialize (T code Hc). now rewrite E in T.
+Qed.
+
+Lemma known_dev_b_spec n prm : known_dev_b n prm = true -> known_dev n prm.
+Proof.
+  unfold known_dev_b, known_dev. rewrite existsb_exists. intros [[[n' w'] ls'] [Hin H]].
+  rewrite !andb_true_iff, Nat.eqb_eq, !N.eqb_eq in H. destruct H as [[-> ->] ->]. exact Hin.
+Qed.
+
+Lemma row_rfc_b_spec n prm : row_rfc_b n prm = true -> row_rfc n prm.
+Proof.
+  unfold row_rfc_b, row_rfc. rewrite !andb_true_iff, !N.eqb_eq. intros [[H1 H2] H3].
+  split; [now apply wok_b_spec|split; assumption].
+Qed.
+
+(* ------------------------------------------------------------------------------------------ *)
+
+(* digit extraction is RFC 8554 section 3.1.3, for every string, index and w *)
+Theorem C12_coef_rfc :
+  forall (S : bytes) (i w : N), wok w -> i < 65536 -> coef S i w = rfc_coef S i w.
+Proof. exact coef_rfc. Qed.
+
+(* every parameter row of the source either is the Appendix-B row (p = u + v, ls = 16 - v*w)
+   or is one of the three listed known deviations *)
+Theorem C12_table_rfc_except_known :
+  forall (n : nat) (code : N) (prm : otsp),
+    In n hash_sizes -> ots_of_type K_src n code = Some prm ->
+    row_rfc n prm \/ known_dev n prm.
+Proof.
+  intros n code prm Hn E. pose proof (table_row n code prm Hn E) as T.
+  apply orb_true_iff in T. destruct T as [T|T]; apply andb_true_iff in T; destruct T as [T _].
+  - left. now apply row_rfc_b_spec.
+  - right. now apply known_dev_b_spec.
+Qed.
+
+(* for every other row: the chain positions are the RFC digits of Q || Cksm(Q) ... *)
+Theorem C12_digits_rfc :
+  forall (n : nat) (code : N) (prm : otsp) (Q : bytes),
+    In n hash_sizes -> ots_of_type K_src n code = Some prm -> ~ known_dev n prm ->
+    digits n prm Q
+    = rfc_digits (N.of_nat n) (o_w prm) (rfc_ls (N.of_nat n) (o_w prm)) (rfc_p (N.of_nat n) (o_w prm)) Q.
+Proof.
+  intros n code prm Q Hn E Hk. pose proof (table_row n code prm Hn E) as T.
+  apply orb_true_iff in T. destruct T as [T|T]; apply andb_true_iff in T; destruct T as [T1 T2].
+  - destruct (row_rfc_b_spec _ _ T1) as [_ [Hp Hls]]. rewrite <- Hp, <- Hls. now apply digits_rfc.
+  - exfalso. apply Hk. now apply known_dev_b_spec.
+Qed.
+
+(* ... the checksum digits, read in base 2^w, are the full checksum value ... *)
+Theorem C12_checksum_digits_encode_full_value :
+  forall (n : nat) (code : N) (prm : otsp) (Q : bytes),
+    In n hash_sizes -> ots_of_type K_src n code = Some prm -> ~ known_dev n prm -> length Q = n ->
+    exists msg cks, digits n prm Q = msg ++ cks
+      /\ length msg = (n * dn (o_w prm))%nat
+      /\ val (2 ^ o_w prm) cks = sumN (map (fun d => (2 ^ o_w prm - 1) - d) msg).
+Proof.
+  intros n code prm Q Hn E Hk Hl. pose proof (table_row n code prm Hn E) as T.
+  apply orb_true_iff in T. destruct T as [T|T]; apply andb_true_iff in T; destruct T as [T1 T2].
+  - exists (str_digits (o_w prm) Q), (firstn (o_p prm - n * dn (o_w prm)) (str_digits (o_w prm) (cks_bytes n prm Q))).
+    split; [now apply digits_split|]. split; [now rewrite str_digits_length, Hl|].
+    rewrite checksum_digits_encode_sum by assumption. now apply cksm_sum_spec.
+  - exfalso. apply Hk. now apply known_dev_b_spec.
+Qed.
+
+(* ... and no digest's digit vector is component-wise >= that of a different digest:
+   all 2^(8n) digests, by the checksum argument, not by search *)
+Theorem C12_no_domination :
+  forall (n : nat) (code : N) (prm : otsp) (Q1 Q2 : bytes),
+    In n hash_sizes -> ots_of_type K_src n code = Some prm -> ~ known_dev n prm ->
+    length Q1 = n -> length Q2 = n ->
+    Forall2 N.le (digits n prm Q1) (digits n prm Q2) -> Q1 = Q2.
+Proof.
+  intros n code prm Q1 Q2 Hn E Hk H1 H2 F. pose proof (table_row n code prm Hn E) as T.
+  apply orb_true_iff in T. destruct T as [T|T]; apply andb_true_iff in T; destruct T as [T1 T2].
+  - exact (no_domination n prm T2 Q1 Q2 H1 H2 F).
+  - exfalso. apply Hk. now apply known_dev_b_spec.
+Qed.
+
+(* KNOWN FINDING, refuted part of the full statement: a row of the source that is a known
+   deviation does admit a domination pair (replayed on the implementation by the harness) *)
+Theorem C12_refuted_known :
+  forall (n : nat) (code : N) (prm : otsp),
+    In n hash_sizes -> ots_of_type K_src n code = Some prm -> ~ row_rfc n prm ->
+    exists Q1 Q2, Q1 <> Q2 /\ length Q1 = n /\ length Q2 = n /\
+                  Forall2 N.le (digits n prm Q2) (digits n prm Q1).
+Proof.
+  intros n code prm Hn E Hr. pose proof (table_row n code prm Hn E) as T.
+  apply orb_true_iff in T. destruct T as [T|T]; apply andb_true_iff in T; destruct T as [T1 T2].
+  - exfalso. apply Hr. now apply row_rfc_b_spec.
+  - now apply dominated_b_spec.
+Qed.
+
+(* non-vacuity: the table has rows of both kinds on the current source *)
+Example ex_C12_rows :
+  (exists prm, ots_of_type K_src 32 4 = Some prm /\ row_rfc_b 32 prm = true /\ dom_ok 32 prm = true)
+  /\ length (filter (fun n => match ots_of_type K_src n 3 with Some prm => dom_ok n prm | None => false end)
+                    hash_sizes) = 3%nat.
+Proof. split; [eexists; split; [reflexivity|split; vm_compute; reflexivity]|vm_compute; reflexivity]. Qed.
+
+Check C12_no_domination :
+  forall (n : nat) (code : N) (prm : otsp) (Q1 Q2 : bytes),
+    In n hash_sizes -> ots_of_type K_src n code = Some prm -> ~ known_dev n prm ->
+    length Q1 = n -> length Q2 = n ->
+    Forall2 N.le (digits n prm Q1) (digits n prm Q2) -> Q1 = Q2.
+
+Print Assumptions C12_coef_rfc.
+Print Assumptions C12_table_rfc_except_known.
+Print Assumptions C12_digits_rfc.
+Print Assumptions C12_checksum_digits_encode_full_value.
+Print Assumptions C12_no_domination.
+Print Assumptions C12_refuted_known.
